@@ -1,3 +1,16 @@
 """Sidecar contracts.  MODULES lists every contract module; a contract serves
 the properties named in its `props`."""
 MODULES = ["contracts.c08", "contracts.c20", "contracts.c19", "contracts.c03", "contracts.c04", "contracts.c14", "contracts.c01", "contracts.c16", "contracts.c18", "contracts.c05", "contracts.c07", "contracts.c10", "contracts.c11", "contracts.c12", "contracts.c13", "contracts.c09", "contracts.c15", "contracts.state"]
+
+# bounded native search used (a) to attach a failing input to a failed obligation and (b) as the stated bounded
+# fall-back when a function's text no longer fits its sidecar contract; contracts that name no oracle of their own
+DEFAULT_REPLAY = {
+    "maverage.deque": "oracles.c20:maverage_deque",
+    "rint": "oracles.c19:simple", "fadein": "oracles.c19:simple", "fadeout": "oracles.c19:simple",
+    "white_noise": "oracles.c19:simple", "attack": "oracles.c19:simple",
+    "Stream.__iter__": "oracles.c03:history", "Stream.__init__": "oracles.c03:history",
+    "StreamTeeHub.__init__": "oracles.c03:hub", "StreamTeeHub.__iter__": "oracles.c03:hub", "StreamTeeHub.copy": "oracles.c03:hub",
+    "thub": "oracles.c03:hub", "Stream.blocks": "oracles.c08:blocks", "tostream.new_func": "oracles.c03:history",
+    "Stream.__abs__": "oracles.c01:operators",
+}
+DEFAULT_REPLAY_PREFIX = {"WavStream.block_reader": "oracles.c18:wav", "WavStream.sample_reader": "oracles.c18:wav"}
